@@ -797,8 +797,8 @@ SPECS["C06"] = CheckSpec(
     rule="thread S runs the real rtr_sync on a scripted full reload (old set O -> new set N, 4 O/N pairs: disjoint, "
          "overlapping, N empty, growing) of a socket that already supplied data, another source's records present; a "
          "second scenario reaches the reload after an earlier reload attempt was cut by a timeout; reader 1 performs "
-         "two queries on one table, reader 2 one query (validate on records that flip / stay, get_all on old / new "
-         "key); ALL interleavings at operations on the live tables' locks within the preemption bound (operations on "
+         "two queries on one table, reader 2 one query (validate on records that flip / stay, get_all and search_by_ski - "
+         "the hash and the list index of the key table - on old / new key); ALL interleavings at operations on the live tables' locks within the preemption bound (operations on "
          "the thread-private shadow tables are not scheduling points: partial-order reduction, thorough re-checks "
          "without it); every result must be the answer under the complete old or the complete new set, per reader and "
          "table never new then old",
